@@ -78,6 +78,7 @@ def binding_demo(pid, trace, d, tag):
     Ps = vlib.read_ndjson(trace)
     want_ops = {"C01": ("mul", "div", "exp", "pow"), "C02": ("mul", "div", "exp", "pow"), "C03": ("add", "mul", "sub"), "C17": ("gradient1",),
                 "C18": ("mul", "add"), "C19": ("rem", "abs")}[pid]
+    tries = []
     for P in Ps:
         for si, st in enumerate(P["steps"]):
             r = st["res"]
@@ -108,7 +109,12 @@ def binding_demo(pid, trace, d, tag):
                 r2 = tlc("Trace_NumVM", env={"TRACE": p, "PROP": pid}, tag=tag + "-bind", cont=True, timeout=300)
                 rej = [v for v in r2["violations"] if v["name"] == "Accepted"]
                 if not (len(rej) == 1 and rej[0]["state"].get("i") == "2"):
-                    raise vlib.ToolError("binding demonstration failed: %s" % r2["violations"])
+                    # a step outside the judged domain (e.g. a remainder by zero) is skipped by the specification, so its
+                    # corruption is not a rejection: move on to the next candidate (a handful at most)
+                    tries.append(P["key"])
+                    if len(tries) >= 8 or r2["violations"]:
+                        raise vlib.ToolError("binding demonstration failed: %s (tried %s)" % (r2["violations"], tries))
+                    break
                 return {"program": P["key"], "corrupted_step": si + 1, "op": st["ins"]["op"], "rejected_program_index": 2, "uncorrupted_accepted": True}
     raise vlib.ToolError("binding demonstration: no suitable step")
 
